@@ -343,6 +343,7 @@ theorem runOp_inv {db : Db} {F : OpFunc} {store : List Obj} {src r : Obj} {o : O
   | indexAsScalar index quantity =>
     simp only [runOp] at h
     split at h <;> cases h
+  | assign a => simp only [runOp] at h; cases h
 
 theorem runCmd_inv {db : Db} {F : OpFunc} {store : List Obj} {c : Cmd} {r : Obj}
     (hs : ∀ o ∈ store, Inv o.st) (h : runCmd db F store c = .ok (.obj r)) : Inv r.st := by
